@@ -34,6 +34,12 @@ pub fn run(cases: &[Vec<String>]) {
             let mut u = vec![c[0].clone(), "c06".into()];
             u.extend(c[3..].iter().cloned());
             run_async_case(7, move || crate::tsx_server::run_case(u))
+        } else if c[2] == "CLIENT" {
+            // id c04 CLIENT <kind> <reliable> <arrivals> <horizon> ... : a client transaction (harness of C05) whose answer may arrive
+            // while the caller is still inside the first send
+            let mut u = vec![c[0].clone(), "c05".into()];
+            u.extend(c[3..].iter().cloned());
+            run_async_case(7, move || crate::tsx_client::run_case(u, false))
         } else {
             run_async_case(1, move || run_case(c))
         };
